@@ -514,9 +514,30 @@ def step_harnesses():
     return hs
 
 
+def filter_harnesses():
+    hs = []
+    for m in (1, 2, 3, 4):
+        hs.append(H("c05_count_filter__m%d" % m, ["C05"], "crate::filter_ops::count_filter::<%d>()" % m, unwind=m + 4,
+                    funcs=["CountFilter::new", "CountFilter::summarize", "Exts::add"],
+                    bounds="%d observations (all extension sets), all thresholds" % m))
+        hs.append(H("c05_count_filter_set__m%d" % m, ["C05"], "crate::filter_ops::count_filter_set::<%d>()" % m, unwind=2 * m + 8, cap=600,
+                    stubs=["S1"], tier="quick" if m <= 3 else "thorough",
+                    funcs=["CountFilterSet::new", "CountFilterSet::summarize", "Vec::sort", "Vec::dedup"],
+                    bounds="%d observations (all extension sets, all labels), all thresholds" % m))
+    for tag, ns in (("kmer3", (3, 5)), ("kmer4", (4, 6)), ("kmer5", (5, 7)), ("kmer6", (8,)), ("kmer8", (10,))):
+        ty, k = KT_BY_TAG[tag][1], KT_BY_TAG[tag][2]
+        for n in ns:
+            hs.append(H("c06_strand_lemma__%s__n%d" % (tag, n), ["C06", "C05"], "crate::filter_ops::strand_lemma::<%s, %d>()" % (ty, n),
+                        unwind=n + 6, cap=600, tier="quick" if tag in ("kmer3", "kmer4") else "thorough",
+                        funcs=["Vmer::iter_kmer_exts", "KmerExtsIter::next", "Kmer::min_rc_flip", "Exts::rc", "Mer::rc"],
+                        bounds="all reads of %d bases (K=%d), all 256 boundary extension sets, every observation index" % (n, k)))
+    return hs
+
+
 def all_harnesses():
     hs = []
     hs += kmer_harnesses()
+    hs += filter_harnesses()
     hs += step_harnesses()
     hs += msp_harnesses()
     hs += iter_harnesses()
